@@ -67,6 +67,7 @@ type PushPullHandler struct {
 
 	resPushPullPack *model.PushPullPack
 	retCh           chan *model.PushPullPack
+	locked          bool
 
 	pushingOperations []interface{}
 	pulledOperations  []model.Operation
@@ -148,7 +149,9 @@ func (its *PushPullHandler) finalize() {
 			}
 		}
 	}
-	defer its.lock.Unlock()
+	if its.locked {
+		defer its.lock.Unlock()
+	}
 	if its.err == nil {
 		its.ctx.L().Infof("finish with CP %v -> %v and pulled ops: %d",
 			its.initialCP.ToString(), its.currentCP.ToString(), len(its.resPushPullPack.Operations))
@@ -196,11 +199,16 @@ func (its *PushPullHandler) logInitialConditions() {
 
 func (its *PushPullHandler) process(retCh chan *model.PushPullPack) {
 
-	its.lock.TryLock()
+	its.locked = its.lock.TryLock()
 
 	defer its.finalize()
 
 	if its.err = its.initialize(retCh); its.err != nil {
+		return
+	}
+
+	if !its.locked {
+		its.err = errors.PushPullAbortionOfServer.New(its.ctx.L(), "fail to lock "+its.getLockKey())
 		return
 	}
 
